@@ -8,6 +8,10 @@ From Coq Require Import Reals List.
 Import ListNotations.
 Local Open Scope R_scope.
 
+(** entries of the arrays handed out by the getters: reals, or the -inf / +inf that numpy
+    puts at the ends when `endpoints=True` *)
+Inductive ext : Type := NegInf | Fin (x : R) | PosInf.
+
 Record cache (P : Type) := mk_cache {
   params : P;
   chiValues : list R; rzValues : list R; rpValues : list R;   (* compact grids *)
